@@ -12,6 +12,7 @@ import (
 
 	"github.com/luno/workflow/verifharness/adapters"
 	"github.com/luno/workflow/verifharness/leandrv"
+	"github.com/luno/workflow/verifharness/live"
 	"github.com/luno/workflow/verifharness/pure"
 	"github.com/luno/workflow/verifharness/report"
 	"github.com/luno/workflow/verifharness/rng"
@@ -26,6 +27,8 @@ var suites = map[string]suiteFn{
 	"sql-timeoutstore": adapters.TimeoutStoreSuite(adapters.SQLTimeoutStore, "C18", "sql-timeoutstore"),
 	"sql-atomic":       adapters.SQLAtomicSuite,
 	"sql-where":        adapters.SQLWhereSuite,
+	"mem-roles":        adapters.RolesSuite(adapters.MemRoles),
+	"live-supervise":   live.Supervise,
 	"mem-streamer":     adapters.StreamerSuite,
 	"mem-connector":    adapters.ConnectorSuite,
 	"mem-timeoutstore": adapters.TimeoutStoreSuite(adapters.MemTimeoutStore, "C12", "mem-timeoutstore"),
